@@ -14,6 +14,8 @@ import (
 	"testing"
 	"time"
 
+	"github.com/rqlite/rqlite/v10/command/proto"
+	sql "github.com/rqlite/rqlite/v10/db"
 	kit "github.com/rqlite/rqlite/v10/internal/verifkit"
 	"github.com/rqlite/rqlite/v10/snapshot"
 )
@@ -321,26 +323,245 @@ func c04FollowerRun(t *testing.T, retain byte, big bool) *c04Result {
 	return res
 }
 
+// ---------------------------------------------------------------- replicated load
+
+// c04WALModeCopy returns the same database as data but as a WAL-mode SQLite file.
+func c04WALModeCopy(t *testing.T, data []byte) []byte {
+	dir := kit.Scratch(t)
+	defer os.RemoveAll(dir)
+	p := filepath.Join(dir, "wal.db")
+	if err := os.WriteFile(p, data, 0644); err != nil {
+		panic(err)
+	}
+	d, err := sql.Open(p, false, true)
+	if err != nil {
+		panic(fmt.Sprintf("c04 harness: WAL-mode copy: %v", err))
+	}
+	if _, err := d.ExecuteStringStmt("CREATE TABLE zz(x); DROP TABLE zz"); err != nil {
+		panic(err)
+	}
+	if meta, err := d.Checkpoint(sql.CheckpointTruncate); err != nil || !meta.Success() {
+		panic(fmt.Sprintf("c04 harness: WAL-mode copy checkpoint: %v %v", err, meta))
+	}
+	if err := d.Close(); err != nil {
+		panic(err)
+	}
+	b, err := os.ReadFile(p)
+	if err != nil || len(b) < 20 || b[18] != 2 || b[19] != 2 {
+		panic(fmt.Sprintf("c04 harness: WAL-mode copy is not a WAL-mode file: %v", err))
+	}
+	return b
+}
+
+// c04LoadRun is a directed two-node history about a LOAD that reaches a node through the
+// raft log while that node already has a snapshot chain of its own:
+//
+//	leader A, read-only follower B; setup writes; the node under test T (B or A) takes its
+//	first (full) snapshot; optionally T is restarted as a new process would be (new Store
+//	object, same directory and address; the start-up must take the fast path - checked);
+//	A loads a SQLite file (DELETE-mode or WAL-mode) - T applies the LOAD entry; A writes
+//	(page-sparse); T snapshots; A writes; T snapshots again.
+//	Oracle on T after each of its two snapshots: its newest snapshot restores (directly and
+//	through a second store's sink) to the model at that index; finally T is restarted with
+//	a forced restore and must show the database it had before.
+func c04LoadRun(t *testing.T, onFollower, restarted, walFile bool) *c04Result {
+	node := map[bool]string{true: "follower", false: "leader"}[onFollower]
+	name := fmt.Sprintf("load:%s:restarted=%t:walfile=%t", node, restarted, walFile)
+	res := &c04Result{hist: name}
+	dir := kit.Scratch(t)
+	defer os.RemoveAll(dir)
+	g := &c04Gate{}
+	la, lb := c04NewGateLayer(g), c04NewGateLayer(g)
+	a := c04NewStoreLy(filepath.Join(dir, "a"), "a", la)
+	b := c04NewStoreLy(filepath.Join(dir, "b"), "b", lb)
+	c04Must(name, "open a", a.Open())
+	c04Must(name, "bootstrap a", a.Bootstrap(NewServer(a.ID(), a.Addr(), true)))
+	_, err := a.WaitForLeader(120 * time.Second)
+	c04Must(name, "leader a", err)
+	c04Must(name, "open b", b.Open())
+	defer func() {
+		b.Close(true)
+		a.Close(true)
+		la.reallyClose()
+		lb.reallyClose()
+	}()
+	file := c04LoadFiles(t)[0]
+	data := file.data
+	if walFile {
+		data = c04WALModeCopy(t, data)
+	}
+
+	ca := &c04Exec{t: t, hist: name, dir: filepath.Join(dir, "xa"), s: a, model: c04Model{"t": {}}, stale: map[string]string{}, res: &c04Result{}}
+	ct := &c04Exec{t: t, hist: name, dir: filepath.Join(dir, "xt"), stale: map[string]string{}, res: res}
+	T := func() *Store {
+		if onFollower {
+			return b
+		}
+		return a
+	}
+	loaded := false
+	ct.mech = func() string {
+		set, err := (&snapshot.SnapshotCatalog{}).Scan(T().snapshotDir)
+		if err == nil && set.Len() > 0 && loaded {
+			ids := set.IDs()
+			// is there a full snapshot taken after the load? the one before it is ids[0]
+			if _, newer := set.PartitionAtFull(); newer.Len() == set.Len()-1 && set.Len() > 1 && ids[0] == ct.firstSnapID {
+				return "snapshot-chain-continues-across-replicated-load"
+			}
+		}
+		return "replicated-load-unexplained"
+	}
+	var steps []string
+	say := func(f string, args ...any) { steps = append(steps, fmt.Sprintf(f, args...)) }
+	caughtUp := func() {
+		want := a.fsmIdx.Load()
+		c04WaitFor("b to apply", func() bool { return b.fsmIdx.Load() >= want })
+	}
+	check := func(when string) {
+		ct.s, ct.model = T(), ca.model
+		ld, err := c04DumpDB(T().db.QueryStringStmt)
+		c04Must(name, "dump", err)
+		md := ca.model.dump()
+		if ld.hash != md.hash {
+			ct.violate(ct.mechanism(), "live-database-wrong", fmt.Sprintf("%s: the %s holds %s, the leader's writes make %s", when, node, ld, md))
+		}
+		li, _, err := T().snapshotStore.(*snapshot.Store).LatestIndexTerm()
+		c04Must(name, "latest index", err)
+		ct.haveSnap, ct.snapIdx, ct.snapModel = true, li, md
+		ct.checkRestore()
+	}
+
+	ca.setup()
+	c04Must(name, "join b", a.Join(joinRequest("b", b.Addr(), false)))
+	ca.step(0, 'w') // also moves B's FSM index past the configuration entry of its own join
+	caughtUp()
+	c04Must(name, "first snapshot", T().Snapshot(0))
+	if ids := func() []string {
+		set, _ := (&snapshot.SnapshotCatalog{}).Scan(T().snapshotDir)
+		return set.IDs()
+	}(); len(ids) == 1 {
+		ct.firstSnapID = ids[0]
+	}
+	say("%s full snapshot", node)
+	if restarted {
+		// a new process: new Store object on the same directory, same address
+		old := T()
+		c04Must(name, "close", old.Close(true))
+		var ns *Store
+		if onFollower {
+			ns = c04NewStoreLy(old.raftDir, "b", lb)
+			b = ns
+		} else {
+			ns = c04NewStoreLy(old.raftDir, "a", la)
+			a = ns
+			ca.s = ns
+		}
+		c04Must(name, "reopen", ns.Open())
+		_, err := a.WaitForLeader(120 * time.Second)
+		c04Must(name, "leader after restart", err)
+		c04WaitFor("a to lead", func() bool { return a.IsLeader() })
+		if ns.numSnapshotsSkipped.Load() != 1 {
+			res.obs = strings.Join(steps, "; ") + "; NOT REACHED: the restart did not take the fast path"
+			res.key = res.obs
+			return res
+		}
+		say("%s restarted on the fast path", node)
+		ca.step(1, 'w')
+		caughtUp()
+	}
+	c04Must(name, "load", a.Load(context.Background(), &proto.LoadRequest{Data: data}))
+	loaded = true
+	ca.model = file.model.clone()
+	ca.nSmall = 0
+	say("load replicated")
+	ca.step(2, 'w')
+	caughtUp()
+	err = T().Snapshot(0)
+	say("%s snapshot after load: %s", node, ct.snapErrClass(err))
+	c04Must(name, "snapshot after load", err)
+	check("after the load, one write and a snapshot")
+	if len(res.violations) == 0 {
+		ca.step(3, 'w')
+		caughtUp()
+		err = T().Snapshot(0)
+		say("%s second snapshot after load: %s", node, ct.snapErrClass(err))
+		c04Must(name, "second snapshot after load", err)
+		check("after the load, two writes and two snapshots")
+	}
+	res.obs = strings.Join(steps, "; ")
+	res.key = res.obs
+	res.steps = 10
+
+	// forced-restore restart of T (new Store object)
+	old := T()
+	before, err := c04DumpDB(old.db.QueryStringStmt)
+	c04Must(name, "dump", err)
+	want := old.fsmIdx.Load()
+	mech := ct.mechanism()
+	c04Must(name, "close", old.Close(true))
+	c04Must(name, "force restore", old.ForceSnapshotRestore())
+	var ns *Store
+	if onFollower {
+		ns = c04NewStoreLy(old.raftDir, "b", lb)
+		b = ns
+	} else {
+		ns = c04NewStoreLy(old.raftDir, "a", la)
+		a = ns
+	}
+	if err := ns.Open(); err != nil {
+		ct.violate(mech, "restart-fails", fmt.Sprintf("the %s restarted with a forced restore fails to open: %v [%s]", node, err, res.obs))
+		if ns.db != nil {
+			ns.db.Close()
+		}
+		if ns.boltStore != nil {
+			ns.boltStore.Close()
+		}
+		if ns.snapshotStore != nil {
+			ns.snapshotStore.Close()
+		}
+		return res
+	}
+	c04WaitFor("re-apply", func() bool { return ns.fsmIdx.Load() >= want })
+	after, err := c04DumpDB(ns.db.QueryStringStmt)
+	if err != nil {
+		ct.violate(mech, "restart-wrong", fmt.Sprintf("the %s restarted with a forced restore cannot read its database: %v [%s]", node, err, res.obs))
+	} else if after.hash != before.hash {
+		ct.violate(mech, "restart-wrong", fmt.Sprintf("the %s restarted with a forced restore holds %s, before the restart %s [%s]", node, after, before, res.obs))
+	}
+	return res
+}
+
 func TestVerif_C04_follower(t *testing.T) {
 	r := kit.Start(t, "C04", "follower")
 	defer r.Finish()
 	log.SetOutput(c04FatalOnly{})
-	r.Rule("4 directed two-node histories (follower keeps a staged WAL because its persist was skipped / failed) x (small / page-heavy writes): leader runs ahead behind a cut link and compacts its log, raft installs the leader's snapshot on the follower through the real sink and fsmRestore, one more write, follower snapshots; then the C04 oracle on the follower's snapshot store and a forced-restore restart of the follower. distinct = scenario outcomes")
+	r.Rule("8 directed two-node histories about a LOAD replicated to a node that has a snapshot chain of its own ({follower, leader} x {restarted on the fast path before the load, not restarted} x {DELETE-mode, WAL-mode file}; then writes and two snapshots on that node, the C04 oracle on its snapshot store after each, and a forced-restore restart), and 4 directed two-node histories (follower keeps a staged WAL because its persist was skipped / failed) x (small / page-heavy writes): leader runs ahead behind a cut link and compacts its log, raft installs the leader's snapshot on the follower through the real sink and fsmRestore, one more write, follower snapshots; then the C04 oracle on the follower's snapshot store and a forced-restore restart of the follower. distinct = scenario outcomes")
 	r.Assume("directed histories only: a search over two-node histories is not built")
 	// (a replay of this part re-runs all four scenarios)
-	type sc struct {
-		retain byte
-		big    bool
+	var runs []func() *c04Result
+	for _, retain := range []byte{'K', 'F'} {
+		for _, big := range []bool{false, true} {
+			runs = append(runs, func() *c04Result { return c04FollowerRun(t, retain, big) })
+		}
 	}
-	scs := []sc{{'K', false}, {'K', true}, {'F', false}, {'F', true}}
-	out := make([]*c04Result, len(scs))
+	for _, onFollower := range []bool{true, false} {
+		for _, restarted := range []bool{true, false} {
+			for _, walFile := range []bool{false, true} {
+				runs = append(runs, func() *c04Result { return c04LoadRun(t, onFollower, restarted, walFile) })
+			}
+		}
+	}
+	out := make([]*c04Result, len(runs))
 	var wg sync.WaitGroup
-	for i, s := range scs {
+	sem := make(chan struct{}, 6)
+	for i, f := range runs {
 		wg.Add(1)
-		go func(i int, s sc) {
+		sem <- struct{}{}
+		go func(i int, f func() *c04Result) {
 			defer wg.Done()
-			out[i] = c04FollowerRun(t, s.retain, s.big)
-		}(i, s)
+			defer func() { <-sem }()
+			out[i] = f()
+		}(i, f)
 	}
 	wg.Wait()
 	for _, res := range out {
@@ -349,11 +570,11 @@ func TestVerif_C04_follower(t *testing.T) {
 		r.Distinct(res.hist + " || " + res.obs)
 		r.Sample(map[string]any{"scenario": res.hist, "outcomes": res.obs, "violations": len(res.violations)})
 		if strings.Contains(res.obs, "NOT REACHED") {
-			r.Cap("scenario %s did not reach the install with a staged WAL: %s", res.hist, res.obs)
+			r.Cap("scenario %s did not reach the situation it is about: %s", res.hist, res.obs)
 		}
 		for _, vi := range res.violations {
 			r.Violation(vi.key, vi.what, map[string]any{"scenario": res.hist})
 		}
 	}
-	r.State(len(scs))
+	r.State(len(runs))
 }
